@@ -520,4 +520,20 @@ theorem colInv_run (x : Ext) (cfg : Cfg) (ops : List Op) : ∀ s, ColInv s → C
   | nil => intro s h; exact h
   | cons op ops ih => intro s h; simp only [run]; exact ih _ (colInv_step x cfg s op h)
 
+/-! ### an accepted column call leaves at least one column entry -/
+
+theorem wsSetColWidth_ne_nil (cols : List Col) (hg : Good cols) (lo hi : Int) (h : lo ≤ hi) (w : Bytes) :
+    wsSetColWidth cols lo hi w ≠ [] := by
+  intro h0
+  have h1 := (wsSetColWidth_refines cols hg lo hi w).2 lo
+  rw [h0] at h1
+  simp [absCols, cover, Spec.setWidth, h] at h1
+
+theorem wsSetColStyle_ne_nil (cols : List Col) (hg : Good cols) (lo hi st : Int) (h : lo ≤ hi) :
+    wsSetColStyle cols lo hi st ≠ [] := by
+  intro h0
+  have h1 := (wsSetColStyle_refines cols hg lo hi st).2 lo
+  rw [h0] at h1
+  simp [absCols, cover, Spec.setStyle, h] at h1
+
 end XlModel.Stream
